@@ -101,5 +101,7 @@ func runC28(c *Ctx) []Obligation {
 		c.whoMayCall(P, "transfer.callers", "(x/apps/keeper.Keeper).TransferApplication", []string{`x/apps\.handleStake`}, "applications are transferred only by the stake handler"),
 		c.whoMayCall(P, "stake.callers", "(x/apps/keeper.Keeper).StakeApplication", []string{`x/apps\.handleStake`}, "applications are staked only by the stake handler"),
 	)
+	out = append(out, appsAllowance(c, P)...)
+	out = append(out, appsStakingSet(c, P)...)
 	return out
 }
